@@ -405,6 +405,8 @@ def judge(ctx, subdir, module, rows, invariant="JudgeOK", nshards=None, per_shar
             if not m:
                 continue
             row = shards[k][int(m.group(2)) - 1]
+            if m.group(3) and isinstance(row, dict):
+                row = dict(row, _info=m.group(3))
             if m.group(1) == "BAD":
                 bad.append(row)
             elif m.group(1) == "DRIFT":
